@@ -337,6 +337,9 @@ func c16(tier string) int {
 		c16ManyLogs(run, u, gen, store, setup)
 		e.Close()
 	}
+	// Fault leg: reads under storage faults - never wrong bytes, never 'not
+	// found' for a log that holds a checkpoint.
+	runFaults(run, "C16", tier, false)
 	for _, k := range []string{"stored->200", "empty->404"} {
 		if run.HistGet("reads", k) == 0 {
 			run.Vacuous("read class %s never observed", k)
